@@ -380,3 +380,63 @@ class Report:
             return {"path": st.get("repo"), "tree_hash": st.get("hash")}
         except Exception:
             return {}
+
+
+# --------------------------------------------------------------------------- field access discipline
+MUTATING = {
+    "insert", "remove", "entry", "extend", "clear", "retain", "get_mut", "values_mut", "iter_mut", "append", "pop_first",
+    "pop_last", "push", "pop", "drain", "truncate", "split_off", "first_entry", "last_entry", "take", "replace", "sort",
+    "sort_by", "dedup", "swap", "get_or_insert_with", "remove_entry", "try_insert", "and_modify",
+}
+
+
+def field_accesses(crate, owner_ty_pred, fields=None):
+    """Every `<expr of owner type>.field` access in non-derived fns with how it is used:
+    ('call', method) | ('assign', op) | ('refmut',) | ('read',)"""
+    out = []
+    for h in crate.user_fns():
+        for n, anc in walk(h["body"]):
+            if n.get("k") != "field":
+                continue
+            if fields is not None and n["name"] not in fields:
+                continue
+            if not owner_ty_pred(crate.ty(n.get("bty"))):
+                continue
+            par = anc[-1] if anc else {}
+            k = par.get("k")
+            how = ("read",)
+            if k == "mcall" and par.get("recv") is n:
+                how = ("call", par["name"])
+            elif k == "ref" and par.get("e") is n:
+                how = ("refmut",) if par.get("mut") else ("read",)
+                # &mut self.f passed as receiver of a method: look one level up
+                if par.get("mut") and len(anc) >= 2 and anc[-2].get("k") == "mcall" and anc[-2].get("recv") is par:
+                    how = ("call", anc[-2]["name"])
+            elif k == "assign" and par.get("l") is n:
+                how = ("assign", "=")
+            elif k == "assignop" and par.get("l") is n:
+                how = ("assign", par.get("op"))
+            out.append({"fn": h["fn"], "field": n["name"], "how": how, "node": n, "parent": par, "anc": anc})
+    return out
+
+
+def is_write(how):
+    return how[0] in ("assign", "refmut") or (how[0] == "call" and how[1] in MUTATING)
+
+
+def contains_node(tree, node):
+    for x, _ in walk(tree):
+        if x is node:
+            return True
+    return False
+
+
+def has_return(tree):
+    for x, _ in walk(tree):
+        if x.get("k") == "ret":
+            return True
+        if x.get("k") == "match" and x.get("src") == "try":
+            return True
+        if x.get("k") == "macro" and x.get("name") in ("panic", "unreachable", "todo", "unimplemented"):
+            return True
+    return False
